@@ -2,11 +2,10 @@
    every modelled library function runs in (state = file system, result = res). *)
 From Coq Require Import List NArith Bool Arith.
 From Coq Require Import Strings.Byte.
-Require Import BS.Bytes BS.Common.
+Require Import BS.Bytes BS.Common BS.Api.
 Import ListNotations.
 Close Scope N_scope. Open Scope nat_scope.
 
-Definition fname := list byte.
 Definition fsys := list (fname * list byte).
 
 Fixpoint fs_get (fs:fsys) (f:fname) : option (list byte) :=
